@@ -114,6 +114,10 @@ fn check_paths(acc: &mut Acc, m: &Material) {
             paths.push(("from_ecdsa(raw)".into(), g(&|| PublicKey::from_ecdsa(m.raw.clone())), None));
             for (vn, algs) in alg_variants() {
                 let a = algs.clone();
+                paths.push((format!("from_ecdsa_with_keyid_hash_algorithm[{vn}]"), g(&|| PublicKey::from_ecdsa_with_keyid_hash_algorithm(m.raw.clone(), SignatureScheme::EcdsaP256Sha256, a.clone().map(|v| v.iter().map(|s| s.to_string()).collect()))), algs));
+            }
+            for (vn, algs) in alg_variants() {
+                let a = algs.clone();
                 paths.push((format!("from_ecdsa_with_keyid_hash_algorithms[{vn}]"), g(&|| PublicKey::from_ecdsa_with_keyid_hash_algorithms(m.raw.clone(), a.clone().map(|v| v.iter().map(|s| s.to_string()).collect()))), algs));
             }
         }
@@ -398,6 +402,7 @@ pub fn run(tier: Tier) -> i32 {
     }
     acc.sample(|| json!({"kind": "path", "key": "ed1", "paths": ["from_pkcs8", "from_spki(standard DER)", "from_pem_spki(standard PEM)", "from_ed25519(raw)", "json[...]"]}));
     check_tables(&mut acc, if tier.thorough() { 3 } else { 2 });
+    crate::envprobe::judge(&mut acc, "C12:", &mut c.extra);
     c.acc = acc;
     c.rule = "keys: 6 Ed25519, 3 ECDSA P-256, RSA 2048 x2 / 4096 x1 / 2048 with public exponents 0x800001 and 0x80000001; construction paths: PKCS#8 private key, standard DER and PEM SubjectPublicKeyInfo, raw bytes, 64-byte keypair, JSON with/without a (lying) keyid member and a private member, each with hash-algorithm list absent/default/one/reordered where the path takes one; every RSA material also under the other PSS digest (PKCS#8, SPKI, JSON) in the same process; for each: key id == reference preimage hash, equality across paths, JSON round trip, SPKI re-export identity and re-import. Key tables: every sequence of <= N appended (label, key) entries over labels {id(A), id(B), zeros, id(A) in upper case, A's 8-character prefix + zeros, id(A) with the last digit changed} x keys {A, B, A and B rebuilt without a hash-algorithm list}, parsed, then used end to end with links signed by B".into();
     c.bound_completed = format!("all keys x all paths; tables of <= {} entries", if tier.thorough() { 3 } else { 2 });
